@@ -1,7 +1,7 @@
 (* Properties_C12.v — linear solvers, inverses and factorisations. *)
 From Coq Require Import Floats.
 From mathcomp Require Import all_ssreflect all_algebra.
-From LS Require Import NumOps F64Ops Kernels Algebra GJ Det.
+From LS Require Import NumOps RcfOps F64Ops Kernels Algebra GJ Det DetLink.
 Set Implicit Arguments. Unset Strict Implicit. Unset Printing Implicit Defensive.
 Import Order.TTheory GRing.Theory Num.Theory.
 Local Open Scope ring_scope.
@@ -17,6 +17,11 @@ Proof. exact: mulmx1C. Qed.
 Theorem C12_det_laplace (R : comRingType) n (M : seq (seq R)) :
   Det.wf n n M -> Det.mdet n M = \det (Det.mx_of n n M).
 Proof. exact: mdetE. Qed.
+(* the EXECUTABLE determinant (with its 1x1 / 2x2 shortcuts and fuel: the code run against the
+   library) is \det, over any real closed field, every size >= 1 *)
+Theorem C12_executable_determinant (R : rcfType) n (M : seq (seq R)) : Det.wf n.+1 n.+1 M ->
+  Algebra.mdet (ops := RcfOps R) M = \det (Det.mx_of n.+1 n.+1 M).
+Proof. exact: exec_mdetE. Qed.
 Theorem C12_det_multiplicative (R : comRingType) n (A B : 'M[R]_n) : \det (A *m B) = \det A * \det B.
 Proof. exact: det_mulmx. Qed.
 
@@ -32,3 +37,4 @@ Proof. by vm_compute. Qed.
 Print Assumptions C12_gauss_jordan_sound.
 Print Assumptions C12_det_laplace.
 Print Assumptions C12_det_multiplicative.
+Print Assumptions C12_executable_determinant.
